@@ -63,39 +63,41 @@ theorem malformed_is_local (conns : List ((ReqSt × Bytes) × Bytes)) (h : ∀ c
 
 /-! ### the service loops as folds over the connection table (`HioModel/Http/Service.lean`)
 
-`serverRun handlers canRespond n table` is n calls of Server.service / BareServer.service over a table whose entries carry
+`serverRun handlers app n table` is n calls of Server.service / BareServer.service over a table whose entries carry
 the bytes / closes the kernel will deliver cycle by cycle; `handlers` is the class list the source has around
 `requestant.parse()` in that loop (regenerated: `wsgiHandlers`, `bareHandlers` — the latter is EMPTY, BareServer has no
-handler there), `canRespond` says whether the responder can answer a parsed request (a parameter: any function). -/
+handler there), `app m` is `none` when the responder cannot answer the parsed request m and `some n` when it answers with n bytes (a
+parameter: any function); every connection has its own send capacity per pass (`SConn.cap`), so responses stay queued in
+`txq` across passes and a non persistent connection is closed only when its queue has drained. -/
 
 /-- for every table (any number of connections, each with any arrival schedule of bytes and closes, well-formed or not),
 every number of cycles, every handler list (even none) and every responder behaviour: no exception leaves service(), and
 every connection ends exactly where it ends when it is served alone -/
-theorem service_total (handlers : List String) (canRespond : ReqMsg → Bool) (n : Nat) (table : List Entry)
+theorem service_total (handlers : List String) (app : ReqMsg → Option Nat) (n : Nat) (table : List Entry)
     (h : ∀ p ∈ table, p.1.st.1.escapedCls = none) :
-    serverRun handlers canRespond n table = .ok (table.map (entryRun handlers canRespond n)) :=
-  serverRun_eq handlers canRespond n table h
+    serverRun handlers app n table = .ok (table.map (entryRun handlers app n)) :=
+  serverRun_eq handlers app n table h
 
 /-- the instances for the two servers with the handler lists of the source as it is now -/
-theorem wsgi_service_total (canRespond : ReqMsg → Bool) (n : Nat) (table : List Entry)
+theorem wsgi_service_total (app : ReqMsg → Option Nat) (n : Nat) (table : List Entry)
     (h : ∀ p ∈ table, p.1.st.1.escapedCls = none) :
-    ∃ t', serverRun wsgiHandlers canRespond n table = .ok t' := ⟨_, service_total _ _ n table h⟩
+    ∃ t', serverRun wsgiHandlers app n table = .ok t' := ⟨_, service_total _ _ n table h⟩
 
-theorem bare_service_total (canRespond : ReqMsg → Bool) (n : Nat) (table : List Entry)
+theorem bare_service_total (app : ReqMsg → Option Nat) (n : Nat) (table : List Entry)
     (h : ∀ p ∈ table, p.1.st.1.escapedCls = none) :
-    ∃ t', serverRun bareHandlers canRespond n table = .ok t' := ⟨_, service_total _ _ n table h⟩
+    ∃ t', serverRun bareHandlers app n table = .ok t' := ⟨_, service_total _ _ n table h⟩
 
 /-- a connection A anywhere in the table, malformed or not, closing or not, leaves every other connection's state, buffer
 and answers exactly as in the run without A -/
-theorem siblings_unaffected (handlers : List String) (canRespond : ReqMsg → Bool) (n : Nat) (pre post : List Entry) (a : Entry)
+theorem siblings_unaffected (handlers : List String) (app : ReqMsg → Option Nat) (n : Nat) (pre post : List Entry) (a : Entry)
     (h : ∀ p ∈ pre ++ a :: post, p.1.st.1.escapedCls = none) :
-    ∃ a', serverRun handlers canRespond n (pre ++ a :: post) =
-            .ok (pre.map (entryRun handlers canRespond n) ++ a' :: post.map (entryRun handlers canRespond n)) ∧
-          serverRun handlers canRespond n (pre ++ post) =
-            .ok (pre.map (entryRun handlers canRespond n) ++ post.map (entryRun handlers canRespond n)) := by
-  refine ⟨entryRun handlers canRespond n a, ?_, ?_⟩
-  · rw [service_total handlers canRespond n _ h]; simp
-  · rw [service_total handlers canRespond n _ (fun p hp => h p (by
+    ∃ a', serverRun handlers app n (pre ++ a :: post) =
+            .ok (pre.map (entryRun handlers app n) ++ a' :: post.map (entryRun handlers app n)) ∧
+          serverRun handlers app n (pre ++ post) =
+            .ok (pre.map (entryRun handlers app n) ++ post.map (entryRun handlers app n)) := by
+  refine ⟨entryRun handlers app n a, ?_, ?_⟩
+  · rw [service_total handlers app n _ h]; simp
+  · rw [service_total handlers app n _ (fun p hp => h p (by
       rcases List.mem_append.mp hp with h1 | h1
       · exact List.mem_append.mpr (Or.inl h1)
       · exact List.mem_append.mpr (Or.inr (List.mem_cons_of_mem _ h1))))]
